@@ -11,6 +11,17 @@ for diff in sorted(glob.glob(os.path.join(src, "*.diff"))):
         print(name, "DOES NOT APPLY to /repo HEAD:", rc.stderr[:200])
         continue
     dst = os.path.join("/verif/benign", name)
+    if os.path.exists(dst):
+        # never overwrite an earlier refactoring of the same name: take the next free number
+        prop_, k = name.rsplit("_", 1)
+        k = int(k) if k.isdigit() else 1
+        if open(os.path.join(dst, "patch.diff")).read() == open(diff).read():
+            print("already imported", name)
+            continue
+        while os.path.exists(os.path.join("/verif/benign", f"{prop_}_{k}")):
+            k += 1
+        dst = os.path.join("/verif/benign", f"{prop_}_{k}")
+        print(name, "->", os.path.basename(dst))
     os.makedirs(dst, exist_ok=True)
     shutil.copy(diff, os.path.join(dst, "patch.diff"))
     eq = os.path.join(src, name + "_equiv.py")
@@ -21,4 +32,4 @@ for diff in sorted(glob.glob(os.path.join(src, "*.diff"))):
     json.dump({"summary": n.get("summary"), "files": n.get("files"), "why_equivalent": n.get("why_equivalent"), "tests_run": n.get("tests_run"),
                "checks": [prop], "origin": "independent sub-agent given only the property texts and a scratch worktree; asked for behaviour-preserving refactorings"},
               open(os.path.join(dst, "meta.json"), "w"), indent=1)
-    print("imported", name)
+    print("imported", os.path.basename(dst))
